@@ -175,7 +175,10 @@ type c01Scenario struct {
 	coll    []string // texts of a text-hash collision pair present in the scenario
 }
 
-func c01BuildScenario(r *rng) *c01Scenario {
+func c01BuildScenario(r *rng) *c01Scenario { return c01BuildScenarioWith(r, c01GenRuleText) }
+
+// c01BuildScenarioWith: the scenario builder over any rule text generator.
+func c01BuildScenarioWith(r *rng, genText func(*rng) string) *c01Scenario {
 	nLists := 1 + r.n(4)
 	nRules := 1 + r.n(12)
 	if r.chance(1, 4) {
@@ -190,7 +193,7 @@ func c01BuildScenario(r *rng) *c01Scenario {
 		if len(all) > 0 && r.chance(1, 8) {
 			t = pick(r, all) // duplicate rule text (same or another list)
 		} else {
-			t = c01GenRuleText(r)
+			t = genText(r)
 		}
 		if _, err := rules.NewNetworkRule(t, 1); err != nil {
 			i--
